@@ -216,6 +216,8 @@ def run_chain(case, ctx):
                  'samples': sp.samples()[sl[2]], 'ntraces': (W[0][1] - W[0][0]) * (W[1][1] - W[1][0]), 'data_image': V[sl],
                  'fields': {k: a.reshape(nI, nX)[sl[0], sl[1]].reshape(-1) for k, a in F.items()}, 'file_header': bytes(fh)}
         else:  # export -> convert
+            if nI < 2 or nX < 2:
+                continue          # a single line re-converts as a 2D file: not a composition of 3D writers
             sgy = scratch.file('s%d.sgy' % (si + 1))
             with env.quiet():
                 with SgzConverter(cur) as c:
